@@ -4,6 +4,7 @@
   run until they block (`WSys.settle`), mirroring `synctest.Wait()` in the harness.
 -/
 import Cosi.Model.Watch
+import Cosi.Model.HistOpts
 import Cosi.Model.Bookmark
 import Cosi.Driver.Store
 
@@ -36,7 +37,23 @@ def deliveryStr (agg : Bool) (d : Delivery) : String :=
     | [e] => "ev " ++ evStr e
     | _ => "batch? [" ++ ";".intercalate (d.map evStr) ++ "]"
 
+/-- `opts=i9,m4,g2,c7`: the history options in the order the state is built with
+    (WithHistoryInitialCapacity / MaxCapacity / Gap / Capacity) -/
+def parseOpts (s : String) : List HistOpts.Opt :=
+  (splitList s).filterMap fun t =>
+    match t.toList with
+    | 'i' :: r => (String.mk r).toNat?.map .initCap
+    | 'm' :: r => (String.mk r).toNat?.map .maxCap
+    | 'g' :: r => (String.mk r).toNat?.map .gap
+    | 'c' :: r => (String.mk r).toNat?.map .cap
+    | _ => none
+
 def init (_spec : Bool) (a : List (String × String)) : WSys :=
+  if arg a "opts" != "" then
+    -- what the options make of the configuration (Cosi.Model.HistOpts, regenerated rules)
+    let c := HistOpts.applyOpts (parseOpts (arg a "opts"))
+    { cfg := { nsAware := arg a "nsaware" != "0" }, initCap := c.init, maxCap := c.max, gap := c.gap }
+  else
   { cfg := { nsAware := arg a "nsaware" != "0" },
     initCap := argNat a "initcap", maxCap := argNat a "maxcap", gap := argNat a "gap" }
 
